@@ -164,12 +164,35 @@ func suiteConfig(r *rng, n int) {
 		if cr.chance(30) {
 			c.Admin = config.AdminConfig{User: "admin", Password: "secret1"}
 		}
+		// free-text remarks: several lines, line breaks at the end, leading blanks, text YAML would read as something
+		// else; also on the LAST element of the document
+		remarks := []string{"owner: ops team\nsee the wiki\n", "keep the blank lines\n\n\n", "  indented", "plain", "# not a comment", "a: b", "tab\there", "yes", "line1\nline2", "trailing space \n"}
+		if cr.chance(40) {
+			c.Servers[len(c.Servers)-1].Remark = cr.pick(remarks)
+		}
+		if cr.chance(20) {
+			c.Caches[0].Remark = cr.pick(remarks)
+		}
+		if cr.chance(20) {
+			c.Locations[len(c.Locations)-1].Remark = cr.pick(remarks)
+		}
+		if cr.chance(15) {
+			c.Upstreams[0].Remark = cr.pick(remarks)
+		}
 		// one defect, or none
 		defect := "none"
 		structOK := true
 		si := cr.intn(len(c.Servers))
 		li := cr.intn(len(c.Locations))
-		switch cr.intn(24) {
+		switch cr.intn(28) {
+		case 19:
+			// an address needs a scheme the proxy can dial with: http or https, exactly
+			defect, structOK = "bad-addr-noscheme", false
+			c.Upstreams[0].Servers[0].Addr = cr.pick([]string{"localhost:3015", "//127.0.0.1:3015", "backend.internal/api", "ttp://127.0.0.1:1", "htt://127.0.0.1:1", "p://x"})
+		case 20:
+			// … and a policy is one of the four names, not a piece of one or several of them
+			defect, structOK = "bad-policy-part", false
+			c.Upstreams[0].Policy = cr.pick([]string{"round", "Robin", "least", "first,random", "rst", "random,", "o"})
 		case 18:
 			// the policy names are case sensitive (the upstream library switches on the exact string and falls back to
 			// round robin for anything else)
@@ -291,6 +314,10 @@ func suiteConfig(r *rng, n int) {
 						probes = "missing:cache"
 					} else if strings.Contains(body, "upstream not found") {
 						probes = "missing:upstream"
+					} else if hostURI[1] == "/api/x" && strings.Contains(body, "location not found") {
+						// every generated location admits aa.test + /api/x (hosts ⊆ {aa.test} or none, prefixes ⊆ {/api} or
+						// none) and every server lists at least one location: some location must take this request
+						probes = "missing:location"
 					}
 				}
 			}
